@@ -188,16 +188,16 @@ theorem Cleaned.inv {c : Cfg} {a : AllocId} {s s' : St} (h : Cleaned c a s s') (
 /-- `build`: allocate, then construct the elements.  With `construct = false` (sizing constructor of a trivially
     default-constructible type) the cells stay raw.  A throwing allocation changes nothing.  A throwing element
     construction rolls back the elements and — in the repaired code (`fx6`) — returns the block. -/
-theorem build_zero (c : Cfg) (a : AllocId) (construct : Bool) (rowLen : Nat) (s : St) :
-    build c a 0 construct rowLen s = .ok none s := by
-  unfold build
+theorem buildSafe_zero (c : Cfg) (a : AllocId) (construct : Bool) (s : St) :
+    buildSafe c a 0 construct s = .ok none s := by
+  unfold buildSafe
   show M.bind (allocate a 0) _ s = _
   unfold M.bind
   have h0 : allocate a 0 s = .ok none s := by simp [allocate]
   rw [h0]
   have hc : ∀ r, constructAll c none 0 r = (pure () : M Unit) := by intro r; simp [constructAll]
   simp only [hc]
-  cases construct <;> cases c.fx6 <;> rfl
+  cases construct <;> rfl
 
 theorem set_last {B : List Block} {blk blk' : Block} : (B ++ [blk]).set B.length blk' = B ++ [blk'] := by
   apply List.ext_getElem?
@@ -213,17 +213,19 @@ theorem set_last {B : List Block} {blk blk' : Block} : (B ++ [blk]).set B.length
       | zero => omega
       | succ m => simp
 
-theorem build_out (c : Cfg) (a : AllocId) (n : Nat) (construct : Bool) (rowLen : Nat) (s : St) {T : Prop}
+/-- `buildSafe`: allocate, construct, and on a throwing construction return the block.  With `construct = false` (a
+    trivially default-constructible element type that is not filled) the cells stay raw. -/
+theorem buildSafe_out (c : Cfg) (a : AllocId) (n : Nat) (construct : Bool) (s : St) {T : Prop}
     (hct : construct = false → c.trivCtor = true) :
-    Out (build c a n construct rowLen s)
+    Out (buildSafe c a n construct s)
       (fun p s' => Built c a n s s' p)
-      (fun s' => s.fuel ≠ none ∧ (c.fx6 = true → Cleaned c a s s')) T := by
+      (fun s' => s.fuel ≠ none ∧ Cleaned c a s s') T := by
   by_cases hn0 : n = 0
   · subst hn0
-    rw [build_zero]
+    rw [buildSafe_zero]
     exact ⟨NF.refl s, rfl, Or.inl ⟨rfl, rfl, rfl⟩⟩
   have hn : 0 < n := by omega
-  unfold build
+  unfold buildSafe
   apply Out.bind (allocate_out a n s)
   · intro p s1 hp
     rcases hp with ⟨hn', _, _⟩ | ⟨_, hpn, h1⟩
@@ -234,41 +236,40 @@ theorem build_out (c : Cfg) (a : AllocId) (n : Nat) (construct : Bool) (rowLen :
       apply Out.pure'
       exact ⟨h1.fuel, h1.arrs, Or.inr ⟨freshBlock a n, hn, rfl, h1.blocks, rfl, rfl, ⟨by simp [freshBlock], Or.inl (hct rfl)⟩, rfl⟩⟩
     | true =>
-      by_cases hfx : c.fx6 = true
-      · simp only [if_pos hfx, if_true]
-        show Out ((tryCatch (constructAll c (some s.blocks.length) n 0)
-          (do deallocate c a (some s.blocks.length) n; rethrow) >>= fun _ => pure (some s.blocks.length)) s1) _ _ _
-        apply Out.bind (P := fun _ s2 => ∃ cs', FrB s1 s2 (s.blocks ++ [{ freshBlock a n with cells := cs' }]) ∧ cs'.length = n ∧ ∀ x ∈ cs', x = Cell.live)
-          (Q := fun s2 => s.fuel ≠ none ∧ Cleaned c a s s2)
-        · apply Out.tryCatch' (constructAll_fresh (T := T) c a n 0 s1 s1 s.blocks hn h1.blocks) _ (fun _ _ h => h)
-          intro s2 ⟨hfu, cs', h2, hlen, hraw⟩
-          have hB2 : s2.blocks[s.blocks.length]? = some { freshBlock a n with cells := cs' } := by
-            rw [h2.blocks]; exact List.getElem?_concat_length
-          show Out ((deallocate c a (some s.blocks.length) n >>= fun _ => rethrow) s2) _ _ _
-          apply Out.bind (deallocate_out c a s.blocks.length n s2 hn hB2 rfl rfl (Or.inr (hraw rfl))) _ (fun _ h => h)
-          intro _ s3 h3
-          apply rethrow_out
-          refine ⟨h1.armed hfu, by rw [h3.arrs, h2.arrs, h1.arrs], Or.inr ⟨freedBlock { freshBlock a n with cells := cs' } a, ?_, rfl,
-            ⟨hlen, Or.inr (hraw rfl)⟩, rfl, rfl⟩⟩
-          rw [h3.blocks, h2.blocks]
-          exact set_last
-        · intro _ s2 ⟨cs', h2, hlen, hlive⟩
-          apply Out.pure'
-          exact ⟨fun h => h2.fuel (h1.fuel h), by rw [h2.arrs, h1.arrs],
-            Or.inr ⟨{ freshBlock a n with cells := cs' }, hn, rfl, h2.blocks, rfl, rfl, ⟨hlen, Or.inr hlive⟩, rfl⟩⟩
-        · intro s2 ⟨hfu, hcl⟩
-          exact ⟨hfu, fun _ => hcl⟩
-      · simp only [if_neg hfx, if_true]
-        show Out ((constructAll c (some s.blocks.length) n rowLen >>= fun _ => pure (some s.blocks.length)) s1) _ _ _
-        apply Out.bind (constructAll_fresh (T := T) c a n rowLen s1 s1 s.blocks hn h1.blocks)
-        · intro _ s2 ⟨cs', h2, hlen, hlive⟩
-          apply Out.pure'
-          exact ⟨fun h => h2.fuel (h1.fuel h), by rw [h2.arrs, h1.arrs],
-            Or.inr ⟨{ freshBlock a n with cells := cs' }, hn, rfl, h2.blocks, rfl, rfl, ⟨hlen, Or.inr hlive⟩, rfl⟩⟩
-        · intro s2 ⟨hfu, _⟩
-          exact ⟨h1.armed hfu, fun h => absurd h hfx⟩
+      simp only [if_true]
+      show Out ((tryCatch (constructAll c (some s.blocks.length) n)
+        (do deallocate c a (some s.blocks.length) n; rethrow) >>= fun _ => pure (some s.blocks.length)) s1) _ _ _
+      apply Out.bind (P := fun _ s2 => ∃ cs', FrB s1 s2 (s.blocks ++ [{ freshBlock a n with cells := cs' }]) ∧ cs'.length = n ∧ ∀ x ∈ cs', x = Cell.live)
+        (Q := fun s2 => s.fuel ≠ none ∧ Cleaned c a s s2)
+      · apply Out.tryCatch' (constructAll_fresh (T := T) c a n 0 s1 s1 s.blocks hn h1.blocks) _ (fun _ _ h => h)
+        intro s2 ⟨hfu, cs', h2, hlen, hraw⟩
+        have hB2 : s2.blocks[s.blocks.length]? = some { freshBlock a n with cells := cs' } := by
+          rw [h2.blocks]; exact List.getElem?_concat_length
+        show Out ((deallocate c a (some s.blocks.length) n >>= fun _ => rethrow) s2) _ _ _
+        apply Out.bind (deallocate_out c a s.blocks.length n s2 hn hB2 rfl rfl (Or.inr (hraw rfl))) _ (fun _ h => h)
+        intro _ s3 h3
+        apply rethrow_out
+        refine ⟨h1.armed hfu, by rw [h3.arrs, h2.arrs, h1.arrs], Or.inr ⟨freedBlock { freshBlock a n with cells := cs' } a, ?_, rfl,
+          ⟨hlen, Or.inr (hraw rfl)⟩, rfl, rfl⟩⟩
+        rw [h3.blocks, h2.blocks]
+        exact set_last
+      · intro _ s2 ⟨cs', h2, hlen, hlive⟩
+        apply Out.pure'
+        exact ⟨fun h => h2.fuel (h1.fuel h), by rw [h2.arrs, h1.arrs],
+          Or.inr ⟨{ freshBlock a n with cells := cs' }, hn, rfl, h2.blocks, rfl, rfl, ⟨hlen, Or.inr hlive⟩, rfl⟩⟩
+      · intro s2 h; exact h
   · intro s1 ⟨h1, hfu⟩
-    exact ⟨hfu, fun _ => ⟨h1.arrs, Or.inl h1.blocks⟩⟩
+    exact ⟨hfu, h1.arrs, Or.inl h1.blocks⟩
+
+/-- the constructors' `build` in the repaired code -/
+theorem build_out (c : Cfg) (a : AllocId) (n : Nat) (construct : Bool) (rowLen : Nat) (s : St) {T : Prop}
+    (hfx : c.fx6 = true) (hct : construct = false → c.trivCtor = true) :
+    Out (build c a n construct rowLen s)
+      (fun p s' => Built c a n s s' p)
+      (fun s' => s.fuel ≠ none ∧ Cleaned c a s s') T := by
+  unfold build
+  rw [if_pos hfx]
+  exact buildSafe_out c a n construct s hct
 
 end Ledger
 end Multi
